@@ -175,10 +175,10 @@ Section IO.
         end
     end.
 
-  (* TensorFrame(feat_dict=..., col_names_dict=..., y=...) *)
+  (* TensorFrame(feat_dict=..., col_names_dict=..., y=..., num_rows=...) *)
   Definition mk_tframe (fd : list (stype * feat)) (names : list (stype * list string)) (y : option tensor)
-    : option tframe :=
-    let t := MkTF fd names y None in
+    (nr : option nat) : option tframe :=
+    let t := MkTF fd names y nr in
     if tf_validate t then Some t else None.
 
   (* ---------------------------------------------------------------- *)
@@ -201,18 +201,34 @@ Section IO.
   Definition feat_dict_wf (fd : list (stype * feat)) : Prop :=
     Forall (fun p => feat_wf (fst p) (snd p)) fd.
 
-  (* a TensorFrame the library produced: it passed its constructor's validate(),
-     its features are well-formed, and num_rows was not passed explicitly (the
-     converter, __getitem__ on such frames, and torch_frame.cat never pass it) *)
+  (* a TensorFrame that exists at run time: it passed its constructor's
+     validate() and its features are well-formed.  An explicitly given num_rows
+     (frames without features) is allowed. *)
   Definition tframe_wf (t : tframe) : Prop :=
-    feat_dict_wf (tf_feat t) /\ tf_validate t = true /\ tf_num_rows t = None.
+    feat_dict_wf (tf_feat t) /\ tf_validate t = true.
+
+  (* the same, as a decision procedure (evaluated on every frame the harness
+     draws from the library, so that the hypothesis of the round-trip theorems
+     is checked against what the library really produces) *)
+  Definition multi_okb (valid : nat -> nat -> tensor -> tensor -> bool) (m : multi) : bool :=
+    valid (m_rows m) (m_cols m) (m_values m) (m_offset m).
+  Definition feat_wfb (st : stype) (f : feat) : bool :=
+    match f with
+    | FTensor _ => negb (use_multi_nested st) && negb (use_multi_embedding st) && negb (use_dict_nested st)
+    | FNested m => use_multi_nested st && multi_okb valid_nested m
+    | FEmbed m => use_multi_embedding st && multi_okb valid_embed m
+    | FDict d => use_dict_nested st && forallb (fun p => multi_okb valid_nested (snd p)) d
+    end.
+  Definition tframe_wfb (t : tframe) : bool :=
+    forallb (fun p => feat_wfb (fst p) (snd p)) (tf_feat t) && tf_validate t.
 
   (* ---------------------------------------------------------------- *)
   (* save / load around torch.save / torch.load *)
   Record tf_dict := MkTD {
     d_y : option tensor;
     d_names : list (stype * list string);
-    d_ser : list (stype * ser)
+    d_ser : list (stype * ser);
+    d_num_rows : option nat                       (* 'num_rows': tensor_frame._num_rows *)
   }.
   Definition payload : Type := tf_dict * stats.   (* the tuple handed to torch.save *)
 
@@ -220,19 +236,19 @@ Section IO.
   Variable enc : payload -> list byte.            (* torch.save: the file's bytes *)
   Variable dec : list byte -> option payload.     (* torch.load: None = raises *)
 
-  (* torch_frame.save(tensor_frame, col_stats, path): the bytes written.
-     num_rows is not part of tf_dict. *)
+  (* torch_frame.save(tensor_frame, col_stats, path): the bytes written *)
   Definition save_payload (t : tframe) (cs : stats) : option payload :=
     s <- serialize_feat_dict (tf_feat t) ;;
-    Some (MkTD (tf_y t) (tf_names t) s, cs).
+    Some (MkTD (tf_y t) (tf_names t) s (tf_num_rows t), cs).
   Definition save (t : tframe) (cs : stats) : option (list byte) :=
     option_map enc (save_payload t cs).
 
-  (* torch_frame.load(path) with device=None (`.to(None)` is the identity) *)
+  (* torch_frame.load(path) with device=None (`.to(None)` is the identity):
+     pop 'feat_serialized_dict', deserialize, TensorFrame( **tf_dict ) *)
   Definition load (b : list byte) : option (tframe * stats) :=
     p <- dec b ;;
     fd <- deserialize_feat_dict (d_ser (fst p)) ;;
-    t <- mk_tframe fd (d_names (fst p)) (d_y (fst p)) ;;
+    t <- mk_tframe fd (d_names (fst p)) (d_y (fst p)) (d_num_rows (fst p)) ;;
     Some (t, snd p).
 
   (* ---------------------------------------------------------------- *)
